@@ -44,6 +44,7 @@ from schemathesis.specs.openapi import _hypothesis as oas_hyp
 from schemathesis.specs.openapi import examples as ex
 
 from harness.core import InfraError
+from harness.corr import c17_runs
 from harness.gens import schemas as gschemas
 from harness.gens.c17_docs import CONTAINER, JSON, gen_doc
 
@@ -56,6 +57,7 @@ KF_HDR = "C17:add_examples:whole-example-skipped-for-one-unsendable-header"
 KF_DEEP_PARAM = "C17:_expand_subschemas:example-below-one-combinator-level-not-extracted"
 KF_DEEP_BODY = "C17:extract_from_schema:property-example-under-body-level-combinator-not-extracted"
 KF_SWAGGER_ALLOF = "C17:_expand_subschemas:swagger2-allOf-later-example-moved-to-unread-examples-field"
+KF_REF_WORD = "C17:extract_inner_examples:bare-referenced-example-containing-the-word-value-dropped"
 
 # pin `generate_one` (read at call time)
 hex_.SCHEMATHESIS_BENCHMARK_SEED = "0"
@@ -236,6 +238,11 @@ W_F22 = _doc({"/rec": {"post": {"requestBody": {"required": True, "content": {JS
                           "required": ["child"]}}})
 
 
+W_REF = _doc({"/r": {"get": {"parameters": [{"name": "q", "in": "query", "schema": {"type": "string"},
+                                               "examples": {"a": {"$ref": "#/components/examples/Raw"}}}],
+                           "responses": OK200}}}, {"examples": {"Raw": "a value here"}})
+
+
 def registered(test):
     return [e.kwargs["case"] for e in getattr(test, "hypothesis_explicit_examples", [])]
 
@@ -283,6 +290,10 @@ def detect_variants(chk):
     except Exception:
         silent = False  # re-raised: the worker reports it
     chk.variants["silent_exception_arms"] = "asFound" if silent else "repaired"
+    # the `"value" not in example` test on a referenced bare string
+    op = _op_of(W_REF, "/r", "GET")
+    got = [e.value for e in ex.extract_top_level(op)]
+    chk.variants["ref_membership"] = "repaired" if "a value here" in got else "asFound"
 
 
 # ---- mechanism 1: produce_combinations ------------------------------------------------------------------------------
@@ -423,6 +434,8 @@ def user_sets(user, container, name):
 
 def finding_signature(e, doc_is_oas3):
     pl = e["placement"]
+    if pl.endswith("$ref-bare+word-value"):
+        return KF_REF_WORD
     if pl.startswith("swagger.body.schema.allOf"):
         return KF_SWAGGER_ALLOF
     if pl.startswith("body.schema.") and ".properties." in pl:
@@ -474,8 +487,20 @@ def mech_documents(chk):
             top, sch, combos, calls = real_extract(op, user)
         except Unsupported:
             continue
+        except TypeError as exc:
+            # `"value" in example` on a referenced bare string that contains the word: as_json_schema indexes the string
+            word = [e for e in exps if e["placement"].endswith("$ref-bare+word-value")]
+            if not word or chk.variants["ref_membership"] != "asFound":
+                raise InfraError(f"{op.label}: {exc!r}") from exc
+            for e in word:
+                chk.violation(KF_REF_WORD, f"example declared at {e['placement']} of {op.label}: the parameter's "
+                              f"as_json_schema raises {exc!r}; no example of the operation becomes a test case",
+                              {"doc": doc, "expect": e, "user": user})
+            chk.feature("documents:raised-on-bare-referenced-string")
+            continue
         fuel = max([depth_of(from_ord(s["jsonSchema"])) for s in params + bodies] or [0]) + 2
         reqs.append(("extract", {"params": params, "bodies": bodies, "fuel": fuel, "variant": variant,
+                                 "vref": chk.variants["ref_membership"],
                                  "user": [[c, [[n, to_ord(v)] for n, v in kv.items()]] for c, kv in user.items()]}))
         keep.append((doc, op, user, exps, top, sch, combos, calls))
     outs = drv.batch(reqs)
@@ -933,6 +958,11 @@ def mech_engine(chk):
                     chk.feature(f"engine:arrived={ok}")
                     if ok:
                         continue
+                    if finding_signature(e, "openapi" in doc) == KF_REF_WORD:
+                        chk.violation(KF_REF_WORD, f"{label}: the referenced bare example {e['value']!r} was not sent "
+                                      f"(status {st_}, errors {errors.get(label)})",
+                                      {"doc": doc, "expect": e, "status": st_, "headers": headers})
+                        continue
                     if _unbuildable(op, user):
                         # no example case can be built for this operation: acceptable only if reported as an error
                         if not (st_ == "error" and errors.get(label)):
@@ -978,7 +1008,28 @@ def run(chk):
         "C17_dropped_is_reported (repaired) + _asFound_false, C17_unsendable_is_reported, "
         "C17_sendable_examples_survive (repaired) + _asFound_false",
     ]
+    chk.proved += [
+        "C17_create_strips_reuse_generate / C17_create_keeps_explicit / C17_create_fuzzing_keeps (create_test, every subset "
+        "of Hypothesis phases x every list of modes)",
+        "C17_nonfuzzing_sends_only_registered, C17_no_examples_nothing_sent (every phases subset, database content, "
+        "report_multiple_bugs, continue_on_failure, unique_inputs, API behaviour) and their history forms "
+        "C17_history_no_examples_always_skipped / C17_history_only_registered_sent (any sequence of runs sharing a database); "
+        "C17_reuse_would_replay (why the stripping is needed)",
+        "C17_unsendable_reported_any_fault, C17_unsatisfiable_reported_any_fault (run_test: every exception arm x every "
+        "set of marks x collected errors), C17_build_failure_reported_partial + _full_false (guarded marks) + "
+        "C17_build_failure_reported_in_examples_phase (the guard cannot bite in the engine's examples phase), "
+        "C17_runStatus_is_runTest",
+        "C17_every_example_sent_or_reported (end to end, all variants repaired) + _asFound_false (overwritten invalid-header "
+        "mark) + _hash_asFound_false (unique_inputs) + C17_every_example_sent_always_full_false (fail-fast) + _partial "
+        "(what holds on the snapshot), C17_sent_or_mark_reported",
+        "C17_extract_referenced_example (repaired `in` test) + _partial + _asFound_false (bare referenced string that "
+        "contains the word `value`)",
+    ]
     chk.partial += [
+        "the end-to-end theorems assume NeverStopsEarly (no failed check unless continue_on_failure, no erroring request "
+        "unless report_multiple_bugs): fail-fast inside a scenario is the documented default (finding FC17b)",
+        "add_coverage is not modelled: the scenario / history theorems speak about mode = examples (coverage runs only "
+        "take part in histories); Flaky / AssertionError / KeyboardInterrupt arms of run_test are not modelled",
         "combinator placements below the one level `_expand_subschemas` expands (anyOf in anyOf, allOf in anyOf, "
         "properties under a body-level combinator, Swagger 2.0 allOf later `example`) are refuted by witnesses, not proved",
         "fuel of extractFromSchemaF: the driver supplies schema depth + 2; no fuel-sufficiency lemma beyond the "
@@ -992,11 +1043,17 @@ def run(chk):
         "as_json_schema conversion, serialization of non-primitive parameter examples",
     ]
     chk.assumptions += [
+        "the contract of Hypothesis' @given/@example wrapper as modelled by hypRun: explicit examples first (reverse "
+        "registration order; it goes on after an Exception only with report_multiple_bugs, never after a BaseException "
+        "such as FailureGroup), SkipTest when nothing ran, the conjecture engine runs only with reuse (database entries "
+        "of this test) or generate, failing engine inputs are saved to the database",
         "Hypothesis runs every explicit example registered with hypothesis.example exactly as given",
         "from_schema with additionalProperties:false never draws an excluded (example) name",
         "externalValue examples need the network and are out of scope",
     ]
-    chk.trusted += ["harness/gens/c17_docs.py (canary placement bookkeeping)", "the loopback HTTP server and its request parser"]
+    chk.trusted += ["harness/gens/c17_docs.py (canary placement bookkeeping)", "the loopback HTTP server and its request parser",
+                    "harness/corr/c17_runs.py: scripted verdicts (Failure/FailureGroup/ConnectionError stand-ins at component "
+                    "level), the faulty loopback API (500 / dropped connection / late answer)"]
     mech_combinations(chk)
     mech_expand(chk)
     work = mech_documents(chk)
@@ -1005,12 +1062,15 @@ def run(chk):
     mech_fill(chk)
     mech_add(chk)
     mech_engine(chk)
+    c17_runs.run(chk)
     chk.exhaustive = False
 
 
 def replay(chk, data):
     rp = data.get("replay", {})
     print(data.get("signature"), "—", data.get("what"))
+    if "history" in rp or "run_test" in rp:
+        return c17_runs.replay(chk, rp)
     if "doc" in rp and "expect" in rp:
         e, doc, user = rp["expect"], rp["doc"], rp.get("user") or ({"headers": rp["headers"]} if rp.get("headers") else {})
         op = schemathesis.openapi.from_dict(doc)[e["op"][0]][e["op"][1]]
@@ -1022,7 +1082,9 @@ def replay(chk, data):
             print("impl kwargs to openapi_cases:", [combo_canon_real(c) for c in calls])
             params = [source_of(op, p, False) for p in op.iter_parameters()]
             bodies = [source_of(op, b, True) for b in op.body]
-            m = chk.driver().one("extract", {"params": params, "bodies": bodies, "fuel": 12})
+            detect_variants(chk)
+            m = chk.driver().one("extract", {"params": params, "bodies": bodies, "fuel": 12,
+                                             "vref": chk.variants["ref_membership"]})
             print("model top:", [example_unwire(j) for j in m["top"]])
             print("model schemas:", [example_unwire(j) for j in m["schemas"]])
             cases = [case_wire(c["params"], c["body"]) for c in map(combo_canon_real, calls)]
